@@ -42,6 +42,7 @@ def scanner_library(seed, idx, k=None):
         model = objgen.gen_objlib(rng)
         header, dump = objgen.render_objlib(model, rng)
         header += '#define FOO_LIMIT 10\n#define FOO_NAME "name"\n#define FOO_RATIO 2.5\n#define FOO_FLAG TRUE\nvoid foo_free_standing (gint x);\nFooRec *foo_free_make (void);\n'
+        header += c03.role_decls(model)
         targets = c03.targets_of(model, header)
         source, blocks = c03.gen_blocks(rng, targets, model)
         # arrays with every combination of length, fixed-size and zero-terminated (parameters, return values, fields)
